@@ -20,7 +20,7 @@ PROP = "C08"
 LEVEL = "model_checking"
 RULE = ("E2: all schedules with <= K deviations over: observer reaction to a notification (ACK default / RST / silence), drop, "
         "duplicate, early state change, re-registration, plain GET on the token, Observe 1, ICMP error, unsuccessful trigger, last "
-        "trigger, shutdown; scenarios: one CON observer, one NON observer, two observers; distinct = distinct schedule")
+        "trigger (the ending notification must itself be sent), shutdown; scenarios: one CON observer, one NON observer, two observers, a render that yields, two tokens of one endpoint; distinct = distinct schedule")
 ASSUMPTIONS = [
     "a registration is identified on the wire by (observer, token) and the registration request that opened it",
     "after a re-registration on the same token old and new notifications cannot be told apart: the 'nothing sent after the end' "
